@@ -525,6 +525,17 @@ def hist_csp(W, ops, prng):
         elif op == "item":
             csp["img-src"] = "a b"
             m["img-src"] = "a b"
+        elif op == "item_cased":
+            # a directive name as another tool spelled it (names are case-insensitive on the wire; the view keeps what it is given)
+            nm_ = prng.choice(["Script-Src", "Frame-Ancestors", "IMG-SRC"])
+            csp[nm_] = "'self'"
+            m[nm_] = "'self'"
+        elif op == "pop_cased":
+            for nm_ in ("Script-Src", "Frame-Ancestors", "IMG-SRC"):
+                if nm_ in m:
+                    csp.pop(nm_)
+                    m.pop(nm_)
+                    break
         elif op == "refused_then_repaired":
             try:
                 csp["img-src"] = "a\nb"
@@ -564,7 +575,7 @@ def hist_csp(W, ops, prng):
     return hist
 
 
-CSP_OPS = ["attr", "attr_none", "attr2", "item", "refused_then_repaired", "del", "clear", "assign_str", "assign_none", "direct"]
+CSP_OPS = ["attr", "attr_none", "attr2", "item", "item_cased", "pop_cased", "refused_then_repaired", "del", "clear", "assign_str", "assign_none", "direct"]
 
 
 def hist_content_range(W, ops, prng):
